@@ -119,6 +119,10 @@ func HarnessC06PotentialStep() {
 	tok2 := vgetPriv(lim, "tokens").(float64)
 	last2 := vgetPriv(lim, "last").(time.Time)
 	vassert(tok2 <= float64(burst), "C06/bucket-holds-more-than-burst")
+	if admitted == 1 {
+		// an admitted call has paid for itself out of at most a full bucket (starts the telescoping sum of a window)
+		vassert(tok2 <= float64(burst)-1+c06Slack, "C06/admitted-call-leaves-more-than-burst-minus-one")
+	}
 	vassert(tok2 >= -0.001, "C06/bucket-overdrawn")
 	el := last2.Sub(last) // ns the bucket's own time stamp moved forward
 	vassert(el >= 0, "C06/bucket-time-stamp-moved-backwards")
